@@ -13,7 +13,7 @@ from .common import doc, goals_of
 
 
 def make(spec_factory: Any, n_cancel: int, events: bool = False, store: bool = False,
-         beh_kw: Optional[Dict[str, Any]] = None) -> Any:
+         beh_kw: Optional[Dict[str, Any]] = None, slow: bool = False) -> Any:
     def mk() -> Any:
         spec = spec_factory()
         set_pools()
@@ -21,7 +21,8 @@ def make(spec_factory: Any, n_cancel: int, events: bool = False, store: bool = F
         def h(sym: Any) -> Tuple[str, Dict[str, Any]]:
             beh = Behaviour(sym, spec, **(beh_kw or {}))
             cfg = Cfg(events=events, store=store, drain=True, rev_taskset=sym.bool("rev_taskset"),
-                      cancel_at=sym.int("cancel_at", 0, n_cancel))
+                      cancel_at=sym.int("cancel_at", 0, n_cancel),
+                      collab_dur=sym.int("collab_dur", 0, 3) if slow else 0)
             obs = run_engine(spec, beh, cfg)
             label = V.hang(obs)
             if label is None:
@@ -86,3 +87,15 @@ register(Job("C13", "oneof_depth2", make(lambda: C.oneof_depth(2), 40), tier="th
              goals=("cancel_delivered", "no_cancel"), doc=doc("oneof_depth2", SYMS)))
 register(Job("C13", "rec_inner_start", make(lambda: C.rec_inner_start(1), 50), tier="thorough", budget_s=1200, parts=REV,
              goals=("cancel_delivered", "no_cancel"), doc=doc("rec_inner_start", SYMS)))
+
+# event callbacks / artifact saves that suspend (symbolic duration 0..3): a cancellation or a sibling failure may land while
+# an engine task is inside a collaborator call
+register(Job("C13", "slow_collab_chain", make(C.chain, 60, events=True, store=True, slow=True, beh_kw={"sym_dur": False}),
+             tier="quick", budget_s=400, parts=[{"rev_taskset": r, "collab_dur": d} for r in range(2) for d in range(4)],
+             goals=("cancel_delivered", "no_cancel"),
+             doc=doc("chain + slow events + slow store", SYMS + ["duration of every collaborator call in [0,3]"])))
+register(Job("C13", "slow_collab_rhombus_fail", make(lambda: C.rhombus(True), 60, events=True, store=False, slow=True,
+                                                     beh_kw={"dur_nodes": {"B"}}),
+             tier="quick", budget_s=400, parts=[{"rev_taskset": r, "collab_dur": d} for r in range(2) for d in range(4)],
+             goals=("cancel_delivered", "no_cancel"),
+             doc=doc("rhombus (B, C may fail) + slow events", SYMS + ["duration of every event callback in [0,3]"])))
